@@ -112,6 +112,13 @@ type Engine struct {
 	errM      methodSet
 	reflPkg   *ssa.Package
 	LoadSecs  float64
+	firstOnly int
+	dynOrder  []*ssa.Package
+	cur       []*interpreter
+	tReset, tInit, tRun atomic.Int64
+	dynOnce   sync.Once
+	dynIndex  map[*ssa.Global]int
+	dynTypes  []types.Type
 
 	// per-harness exploration state
 	mu         sync.Mutex
@@ -188,6 +195,10 @@ func Load(cfg Config) (*Engine, error) {
 	e := &Engine{cfg: cfg, prog: prog, pkgs: pkgs, frozen: map[*ssa.Global]*value{},
 		frozenPkg: map[*ssa.Package]bool{}, dynPkg: map[*ssa.Package]bool{}}
 	e.cond = sync.NewCond(&e.mu)
+	e.firstOnly = -1
+	if v := os.Getenv("SYMGO_FIRST"); v != "" {
+		fmt.Sscanf(v, "%d", &e.firstOnly)
+	}
 	e.sizes = types.SizesFor("gc", "amd64")
 	for _, p := range prog.AllPackages() {
 		if p.Pkg.Path() == cfg.HarnessPkg {
@@ -205,12 +216,14 @@ func Load(cfg Config) (*Engine, error) {
 	for _, p := range prog.AllPackages() {
 		path := p.Pkg.Path()
 		switch {
-		case strings.HasPrefix(path, "github.com/d5/tengo") || strings.HasPrefix(path, "verif/"):
+		case strings.HasPrefix(path, "github.com/d5/tengo"):
 			e.dynPkg[p] = true
+			e.dynOrder = append(e.dynOrder, p)
 		default:
 			e.frozenPkg[p] = true
 		}
 	}
+	sort.Slice(e.dynOrder, func(a, b int) bool { return e.dynOrder[a].Pkg.Path() < e.dynOrder[b].Pkg.Path() })
 	if err := e.boot(); err != nil {
 		return nil, err
 	}
@@ -230,13 +243,15 @@ func (e *Engine) boot() (err error) {
 	}
 	i := e.newInterp(nil, nil)
 	i.booting = true
+	i.resetDynamic()
+	i.goroutinesReset()
 	i.p = newPath(nil, nil)
 	initReflect(i)
 	// deterministic order: dependency order is enforced by init functions
 	// calling their imports' init; we call each allowed package's init.
 	var order []*ssa.Package
 	for p := range e.frozenPkg {
-		if frozenInitAllow[p.Pkg.Path()] {
+		if frozenInitAllow[p.Pkg.Path()] || strings.HasPrefix(p.Pkg.Path(), "verif/") {
 			order = append(order, p)
 		}
 	}
@@ -273,12 +288,12 @@ func describePanic(r interface{}) string {
 func (e *Engine) newInterp(solver *smt.Solver, ctx *smt.Ctx) *interpreter {
 	i := &interpreter{
 		prog:               e.prog,
-		globals:            make(map[*ssa.Global]*value),
 		sizes:              e.sizes,
 		eng:                e,
 		runtimeErrorString: e.rtErrStr,
 		solver:             solver,
 		funcs:              map[*ssa.Function]int64{},
+		envPool:            map[*ssa.Function][][]value{},
 	}
 	i.ctx = ctx
 	if ctx == nil {
@@ -292,15 +307,29 @@ func (e *Engine) newInterp(solver *smt.Solver, ctx *smt.Ctx) *interpreter {
 
 // resetDynamic gives the interpreter fresh globals for the per-path packages.
 func (i *interpreter) resetDynamic() {
-	i.globals = make(map[*ssa.Global]*value, 512)
-	for p := range i.eng.dynPkg {
-		for _, m := range p.Members {
-			if g, ok := m.(*ssa.Global); ok {
-				cell := zero(deref(g.Type()))
-				i.globals[g] = &cell
+	e := i.eng
+	e.dynOnce.Do(func() {
+		e.dynIndex = map[*ssa.Global]int{}
+		for _, p := range e.dynOrder {
+			var names []string
+			for name, m := range p.Members {
+				if _, ok := m.(*ssa.Global); ok {
+					names = append(names, name)
+				}
+			}
+			sort.Strings(names)
+			for _, name := range names {
+				g := p.Members[name].(*ssa.Global)
+				e.dynIndex[g] = len(e.dynTypes)
+				e.dynTypes = append(e.dynTypes, deref(g.Type()))
 			}
 		}
+	})
+	cells := make([]value, len(e.dynTypes))
+	for k, t := range e.dynTypes {
+		cells[k] = zero(t)
 	}
+	i.dynCells = cells
 }
 
 func (e *Engine) push(it workItem) {
@@ -359,7 +388,30 @@ func (e *Engine) Run(harness string) *Report {
 	e.stack = []workItem{{}}
 	e.active = 0
 	e.stop = false
+	e.cur = make([]*interpreter, e.cfg.Workers)
 	var wg sync.WaitGroup
+	stopProgress := make(chan struct{})
+	if os.Getenv("SYMGO_PROGRESS") != "" {
+		go func() {
+			tk := time.NewTicker(10 * time.Second)
+			defer tk.Stop()
+			for {
+				select {
+				case <-stopProgress:
+					return
+				case <-tk.C:
+					e.mu.Lock()
+					fmt.Fprintf(os.Stderr, "  [%s] paths=%d frontier=%d active=%d violations=%d\n", harness, e.rep.Paths, len(e.stack), e.active, len(e.rep.Violations))
+					for w, c := range e.cur {
+						if c != nil && c.p != nil {
+							fmt.Fprintf(os.Stderr, "      w%d: choices=%v decisions=%d steps=%d queries=%d\n", w, c.p.choices, len(c.p.decisions), c.p.steps, c.solver.St.Queries)
+						}
+					}
+					e.mu.Unlock()
+				}
+			}
+		}()
+	}
 	var solverStats []smt.Stats
 	var smu sync.Mutex
 	for w := 0; w < e.cfg.Workers; w++ {
@@ -380,6 +432,9 @@ func (e *Engine) Run(harness string) *Report {
 				}
 			}
 			i := e.newInterp(solver, ctx)
+			e.mu.Lock()
+			e.cur[w] = i
+			e.mu.Unlock()
 			for {
 				e.mu.Lock()
 				for len(e.stack) == 0 && e.active > 0 && !e.stop {
@@ -415,6 +470,7 @@ func (e *Engine) Run(harness string) *Report {
 		}(w)
 	}
 	wg.Wait()
+	close(stopProgress)
 	for _, s := range solverStats {
 		e.rep.Solver.Queries += s.Queries
 		e.rep.Solver.Sat += s.Sat
@@ -430,6 +486,9 @@ func (e *Engine) Run(harness string) *Report {
 	e.rep.UnknownAssert = e.stat.UnknownAssert.Load()
 	e.rep.Steps = e.stat.Steps.Load()
 	e.rep.Wall = time.Since(t0).Seconds()
+	if os.Getenv("SYMGO_DEBUG") != "" {
+		fmt.Fprintf(os.Stderr, "  timing: reset=%.2fs init=%.2fs run=%.2fs (summed over workers)\n", float64(e.tReset.Swap(0))/1e9, float64(e.tInit.Swap(0))/1e9, float64(e.tRun.Swap(0))/1e9)
+	}
 	if e.rep.Truncated {
 		e.rep.Unclean = append(e.rep.Unclean, fmt.Sprintf("path budget %d reached: exploration truncated", e.cfg.MaxPaths))
 	}
@@ -441,7 +500,9 @@ func (e *Engine) Run(harness string) *Report {
 
 // runPath executes the harness once along the given decision prefix.
 func (e *Engine) runPath(i *interpreter, fn *ssa.Function, it workItem) {
+	tA := time.Now()
 	i.resetDynamic()
+	e.tReset.Add(int64(time.Since(tA)))
 	sec0, q0 := 0.0, 0
 	if i.solver != nil {
 		sec0, q0 = i.solver.St.Seconds, i.solver.St.Queries
@@ -450,6 +511,7 @@ func (e *Engine) runPath(i *interpreter, fn *ssa.Function, it workItem) {
 	i.hooks = nil
 	i.inHook = false
 	i.guardLimit = nil
+	i.guardDecLimit = nil
 	i.goroutinesReset()
 	end := "completed"
 	var abort *pathAbort
@@ -492,7 +554,13 @@ func (e *Engine) runPath(i *interpreter, fn *ssa.Function, it workItem) {
 				e.noteUnclean(end)
 			}
 		}()
-		call(i, nil, token.NoPos, e.harness.Func("init"), nil)
+		tB := time.Now()
+		for _, p := range e.dynOrder {
+			call(i, nil, token.NoPos, p.Func("init"), nil)
+		}
+		e.tInit.Add(int64(time.Since(tB)))
+		tC := time.Now()
+		defer func() { e.tRun.Add(int64(time.Since(tC))) }()
 		call(i, nil, token.NoPos, fn, nil)
 		i.finishGoroutines()
 	}()
